@@ -511,6 +511,7 @@ CombId = z3.Function("CombId", I, I, I, I, I)        # constraint, tree, scope c
 NCombos = z3.Function("NCombos", I, I, I, I)         # constraint, tree, scope content -> number of combinations
 EvalRaises = z3.Function("EvalRaises", I, I, I, B)   # constraint, expression, combination
 EvalTruthy = z3.Function("EvalTruthy", I, I, I, B)
+EvalIsNone = z3.Function("EvalIsNone", I, I, I, B)             # the evaluation returned None
 CmpRaises = z3.Function("CmpRaises", I, I, B)        # constraint, combination: the comparison operator itself raises
 CmpTrue = z3.Function("CmpTrue", I, I, B)
 AllOkE = z3.Function("AllOkE", I, I, I, I, B)        # constraint, tree, scope content, i: first i combinations are ok
@@ -572,8 +573,12 @@ class Constraint_eval(Contract):
         return [("Exception", EvalRaises(*self._ids(cx, a)))]
 
     def fresh_result(self, cx, a):
-        o = cx.opaque("value")
-        o.truthy = EvalTruthy(*self._ids(cx, a))
+        # any Python value, None included (re.match(), dict.get(), a predicate without `return`): None is falsy
+        ids = self._ids(cx, a)
+        is_none = EvalIsNone(*ids)
+        o = cx.opaque("value", maybe_none=is_none)
+        o.truthy = EvalTruthy(*ids)
+        cx.assume(Implies(is_none, Not(EvalTruthy(*ids))))
         return o
 
 
